@@ -149,11 +149,26 @@ Definition spec_linearsph (n : nat) : list Q :=
 (* CovMatern.cpp:171 for an integer parameter mu: (2k+1) / (1 + scale^2 k (k+1))^(mu+1)  (1/(4 pi) cancels) *)
 Definition spec_matern (mu : nat) (scale : Q) (n : nat) : list Q :=
   map (fun k => let kq := inject_Z (Z.of_nat k) in (2 * kq + 1) / qpow (1 + scale * scale * kq * (kq + 1)) (S mu)) (seq 0 (S n)).
+(* CovMarkov.cpp:70  (2j+1) / (4 pi sum_i c_i (scale^2 j (j+1))^i)   (1/(4 pi) cancels); default coefficients (1) *)
+Fixpoint qpoly (cs : list Q) (x : Q) : Q := match cs with [] => 0 | c :: r => c + x * qpoly r x end.
+Definition spec_markov (coeffs : list Q) (scale : Q) (n : nat) : list Q :=
+  map (fun j => let jq := inject_Z (Z.of_nat j) in (2 * jq + 1) / qpoly coeffs (scale * scale * jq * (jq + 1))) (seq 0 (S n)).
+(* CovExponential.cpp:96 with e standing for exp(-nu pi), 0 <= e <= 1:
+   sp0 = (1+e)/(2(1+nu^2)), sp1 = 3(1-e)/(2(4+nu^2)), sp_k = (2k+1)/(2k-3) (nu^2+(k-2)^2)/(nu^2+(k+1)^2) sp_(k-2) *)
+Fixpoint spec_exp_gen (nu e : Q) (k : nat) : Q :=
+  match k with
+  | O => (1#2) * (1 + e) / (1 + nu * nu)
+  | S O => (3#2) * (1 - e) / (4 + nu * nu)
+  | S (S j as k1) =>
+      let kq := inject_Z (Z.of_nat (S k1)) in
+      (2 * kq + 1) / (2 * kq - 3) * (nu * nu + (kq - 2) * (kq - 2)) / (nu * nu + (kq + 1) * (kq + 1)) * spec_exp_gen nu e j
+  end.
 Definition sphere_spectrum (type : Z) (param scale : Q) (n : nat) : option (list Q) :=
   match type with
   | 28%Z => Some (normalize1 (spec_geometric scale n))
   | 29%Z => Some (normalize1 (spec_poisson param n))
   | 30%Z => Some (normalize1 (spec_linearsph n))
+  | 27%Z => Some (normalize1 (spec_markov [1] scale n))
   | 7%Z => if Z.eqb (Zpos (Qden (Qred param))) 1 && qltb 0 param
            then Some (normalize1 (spec_matern (Z.to_nat (Qnum (Qred param))) scale n)) else None
   | _ => None
